@@ -20,6 +20,8 @@ ASSUMPTIONS = ["noise uses a deterministic generator seam; trend callables are p
                "1-step bisimulation after restore_original: operations read only the three series (x_scale / y_scale are write-only)",
                "length cap %d samples; FITPACK warnings ignored" % WO.LEN_CAP]
 ANCHORS = {"weaver.py": [(64, 79), (211, 230), (413, 422)], "process.py": [(149, 157)]}
+FORMS_HARNESSES = "all"
+FORMS_WIDTH = {"full-alphabet": 6, "core-alphabet": 6, "ulp-spaced-abscissae": 4, "pipeline-deviations": 5}
 EXPLANATION = "exhaustive exploration of API programs on the live object with invariants in every state"
 
 CORE_OPS = [("append", True), ("shift_x", 1.0), ("shift_y", 2.0), ("scale_x", 0.5), ("scale_y", -1.0), ("normalize_x", 0.0, 1.0),
